@@ -38,7 +38,7 @@ GUARD = "CHJJ_LCDB_VERIF"
 CBMC_BASE = ["--unwinding-assertions", "--pointer-overflow-check",
              "--signed-overflow-check", "--undefined-shift-check",
              "--drop-unused-functions", "--json-ui",
-             "--verbosity", "6"]
+             "--verbosity", "8"]
 # --conversion-check is removed per obligation where the real code narrows on
 # purpose (see Obl.no_conversion_check)
 
@@ -51,7 +51,8 @@ class Obl(object):
                  flags=(), timeout=600, mem_gb=12, tier="quick", desc="",
                  object_bits=None, known=None, functions=(), include_real=(),
                  no_flags=(), remove_bodies=(), entry="harness", guard=False,
-                 sat=None, bounds="", replay=True):
+                 sat=None, bounds="", replay=True, cost=0,
+                 unwind_is_violation=False):
         self.name = name
         self.harness = harness              # path under /verif/harness
         self.real = list(real)              # real TUs (paths under /repo/src)
@@ -78,6 +79,10 @@ class Obl(object):
         self.sat = sat
         self.bounds = bounds
         self.replay = replay
+        self.cost = cost or timeout
+        # termination within the bound is part of the property (decoders):
+        # an unwinding-assertion failure is then a counterexample, not a broken check
+        self.unwind_is_violation = unwind_is_violation
 
     def size_tuple(self):
         return ",".join("%s=%s" % (k, v) for k, v in sorted(self.defs.items()))
@@ -425,6 +430,15 @@ def run_obligation(obl, scratch, keep=False):
             res.detail = "cbmc rc=%s: %s %s" % (rc, errtxt[-1500:], se.decode(errors="replace")[-800:])
         return res
     ok, fails, unwind_fail, wit_ok, wit_bad = classify(results)
+    if obl.unwind_is_violation:
+        # termination inside the stated bound is part of the property
+        keep_u = []
+        for (p, d) in unwind_fail:
+            if d.startswith("vp-model:"):
+                keep_u.append((p, d))
+            else:
+                fails.append((p, "does not terminate within the stated bound: " + d, "FAILURE"))
+        unwind_fail = keep_u
     res.props_total = ok + len(fails) + len(unwind_fail)
     res.props_ok = ok
     res.witness_total = wit_ok + wit_bad
@@ -450,6 +464,8 @@ def run_obligation(obl, scratch, keep=False):
         else:
             res.replay_status = "no-trace" if r is None else "replay-disabled"
             res.replay_output = ""
+        if not keep:
+            shutil.rmtree(odir, ignore_errors=True)
         return res
     if unwind_fail:
         res.status = "broken"
@@ -522,6 +538,7 @@ def finish(prop, spec, tier, seed, results, known, wall, partial=False):
     violations = 0
     known_hits = []
     broken = []
+    unconfirmed = []
     lines = []
     os.makedirs(os.path.join(VERIF, "replays"), exist_ok=True)
     for r in results:
@@ -535,6 +552,14 @@ def finish(prop, spec, tier, seed, results, known, wall, partial=False):
                     r.status = "known"
                     known_hits.append(r)
                     continue
+            if r.replay_status == "not-reproduced":
+                # the solver's counterexample ran through the natively built
+                # real code without tripping the assertion or a sanitizer:
+                # either standard-level UB no sanitizer sees (pointer
+                # overflow) or a model artefact -- reported separately,
+                # never as VIOLATION (DESIGN section 9)
+                unconfirmed.append(r)
+                continue
             violations += 1
             h = hashlib.sha1((r.obl.name + repr(getattr(r, "trace_values", []))).encode()).hexdigest()[:10]
             path = os.path.join(VERIF, "replays", "%s-%s-%s.json" % (prop, re.sub(r"[^A-Za-z0-9_.-]", "_", r.obl.name), h))
@@ -556,7 +581,13 @@ def finish(prop, spec, tier, seed, results, known, wall, partial=False):
     write_evidence(prop, spec, tier, seed, results, wall, violations, known_hits, broken, partial)
     for l in lines:
         print(l)
+    for r in unconfirmed:
+        print("UNCONFIRMED property=%s obligation=%s solver counterexample did not reproduce on the native build: %s" % (
+            prop, r.obl.name, r.detail[:400].replace("\n", " ")))
+        broken.append(r)
     for r in broken:
+        if r in unconfirmed:
+            continue
         print("CHECK-BROKEN property=%s obligation=%s status=%s %s" % (prop, r.obl.name, r.status, r.detail[:500].replace("\n", " ")))
     npass = sum(1 for r in results if r.status == "pass")
     print("SUMMARY property=%s tier=%s obligations=%d pass=%d known=%d violations=%d broken=%d wall=%.1fs" % (
